@@ -119,3 +119,28 @@ impl Src for ReplaySrc {
         }
     }
 }
+
+// ---- contract stub for std::collections::BinaryHeap::push -----------------------------------------------------------
+// "the element is added to the queue": the stub records the pushed element (type-erased) instead of executing the
+// sift-up, whose comparisons are the business of the order harnesses.  Harnesses read the record with `pushed::<T>(i)`.
+pub const MAX_PUSH: usize = 40;
+pub static mut PUSH_SLOT: [*const (); MAX_PUSH] = [std::ptr::null(); MAX_PUSH];
+pub static mut PUSH_N: usize = 0;
+
+#[cfg(kani)]
+pub fn heap_push_recorder<T: Ord, A: std::alloc::Allocator>(_this: &mut std::collections::BinaryHeap<T, A>, item: T) {
+    unsafe {
+        assert!(PUSH_N < MAX_PUSH, "push recorder full");
+        PUSH_SLOT[PUSH_N] = Box::into_raw(Box::new(item)) as *const ();
+        PUSH_N += 1;
+    }
+}
+
+pub fn pushed_count() -> usize {
+    unsafe { PUSH_N }
+}
+
+/// the i-th pushed element (harness knows the element type)
+pub unsafe fn pushed<T: Clone>(i: usize) -> T {
+    (*(PUSH_SLOT[i] as *const T)).clone()
+}
